@@ -75,6 +75,7 @@ impl<W: WorldSpec> Engine<W> {
         rt::set_clone_probe(None);
         rt::h(&[0xC104E, clone_calls as u64, res.is_ok() as u64]);
         self.yields.push((self.step, 1, clone_calls));
+        self.interleavings.insert(mix(0xC10, mix(panic_at.map_or(99, |k| k.min(12)) as u64, probe.map_or(0, |p| 1 + p.1.kind as u64))));
         // probe verdict: while archetype X is being cloned all its columns are shared-borrowed
         if let (Some((_, acc)), Some((panicked, msg, in_progress))) = (probe, probe_result.borrow().clone()) {
             self.stats.inc("clone_probe_ran");
@@ -240,6 +241,7 @@ impl<W: WorldSpec> Engine<W> {
         }
         rt::h(&[0xD409, wid as u64, n as u64]);
         self.yields.push((self.step, 2, n));
+        self.interleavings.insert(mix(0xD40, panic_at.map_or(99, |k| k.min(12)) as u64));
         match res {
             Ok(()) => {
                 for (k, id) in &cells {
@@ -661,6 +663,7 @@ pub struct RunResult {
     pub trace: Option<Vec<String>>,
     pub failed_at: Option<u32>,
     pub yields: Vec<(u32, u8, u32)>,
+    pub interleavings: std::collections::BTreeSet<u64>,
 }
 
 #[derive(Clone, Copy, Debug)]
@@ -680,6 +683,7 @@ pub fn run_spec<W: WorldSpec>(spec: &RunSpec, opts: RunOpts) -> RunResult {
     let mut findings = Vec::new();
     let mut state_hashes = Default::default();
     let mut yields = Vec::new();
+    let mut interleavings = Default::default();
     match Engine::<W>::new(&caps) {
         Ok(mut e) => {
             e.heavy_audit = opts.heavy_audit;
@@ -717,6 +721,7 @@ pub fn run_spec<W: WorldSpec>(spec: &RunSpec, opts: RunOpts) -> RunResult {
             findings = std::mem::take(&mut e.findings);
             state_hashes = std::mem::take(&mut e.state_hashes);
             yields = std::mem::take(&mut e.yields);
+            interleavings = std::mem::take(&mut e.interleavings);
         }
         Err(c) => {
             let too_big = caps.iter().any(|c| *c > MAX_CAP);
@@ -729,5 +734,5 @@ pub fn run_spec<W: WorldSpec>(spec: &RunSpec, opts: RunOpts) -> RunResult {
         }
     }
     let (hash, violations, trace) = rt::with(|r| (r.hash, std::mem::take(&mut r.violations), r.trace.take()));
-    RunResult { hash, stats, violations, findings, steps, state_hashes, trace, failed_at, yields }
+    RunResult { hash, stats, violations, findings, steps, state_hashes, trace, failed_at, yields, interleavings }
 }
